@@ -507,7 +507,7 @@ STEPS = {
     'func': (lambda x, o: f'coalesce(({x}), true)', lambda x, o: (T if x == U else x)),
     'is': (lambda x, o: f'(({x}) IS NULL)', lambda x, o: (T if x == U else F)),
 }
-OTHERS = ['t1.x = 2', 't1.z = 3', 't1.w = 4']
+OTHERS = ['t1.x = 2', 't1.z = 3', 't1.w = 4', 't1.v = 5', 't1.u = 6']
 
 
 def path_cases(depth):
